@@ -3,7 +3,7 @@ CONSTANTS
   Variant = "repaired"
   CompInits <- CompInitsAll
   LocoInits <- None
-  LoadFiles <- LoadComps
+  LoadFiles <- None
   CompOps <- CompOpsAll
   LocoOps <- LocoOpsQ
   Targets <- One
@@ -17,5 +17,5 @@ INVARIANT TrainStatic
 INVARIANT Atomic
 INVARIANT OptionSemantics
 INVARIANT Frame
-INVARIANT Emit
+INVARIANT EmitThird
 CHECK_DEADLOCK FALSE
